@@ -72,6 +72,9 @@ inductive Stmt
   | dml (t : Nat) (op : Dml)
   | failBind (col : Bool)         -- missing table (false → 2003/42S02) or missing column (true → 2043/02000)
   | failRun                       -- run-time failure (conversion error on INSERT)
+  | failMulti                     -- a statement fakesnow explodes into several engine statements (MERGE) whose second part
+                                  -- fails while binding (clause names a missing column → 2043/02000): the first part
+                                  -- (temporary candidates table) has no visible effect, the failure is a Binder error
   | const                         -- SELECT 1: touches no table
 deriving DecidableEq, Repr
 
@@ -100,6 +103,7 @@ def loc (m : Mode) (com : Store) : Tx → Stmt → Store × Tx × Obs
   | .idle, .sel t => (com, .idle, .rows (com t))
   | .idle, .dml t op => (com.app ⟨t, op⟩, .idle, .count (op.cnt (com t)))
   | .idle, .failBind b => (com, .idle, .sfErr b)
+  | .idle, .failMulti => (com, .idle, .sfErr true)
   | .idle, .failRun => (com, .idle, .rawRun)
   | .idle, .const => (com, .idle, .one)
   -- after BEGIN, nothing pinned yet
@@ -109,6 +113,7 @@ def loc (m : Mode) (com : Store) : Tx → Stmt → Store × Tx × Obs
   | .fresh, .sel t => (com, .pinned com [], .rows (com t))
   | .fresh, .dml t op => (com, .pinned com [⟨t, op⟩], .count (op.cnt (com t)))
   | .fresh, .failBind b => (com, .pinned com [], .sfErr b)
+  | .fresh, .failMulti => (com, .pinned com [], .sfErr true)
   | .fresh, .failRun => match m with | .duck => (com, .aborted, .rawRun) | .ideal => (com, .pinned com [], .rawRun)
   | .fresh, .const => (com, .fresh, .one)
   -- pinned
@@ -118,6 +123,7 @@ def loc (m : Mode) (com : Store) : Tx → Stmt → Store × Tx × Obs
   | .pinned s ws, .sel t => (com, .pinned s ws, .rows (s.apps ws t))
   | .pinned s ws, .dml t op => (com, .pinned s (ws ++ [⟨t, op⟩]), .count (op.cnt (s.apps ws t)))
   | .pinned s ws, .failBind b => (com, .pinned s ws, .sfErr b)
+  | .pinned s ws, .failMulti => (com, .pinned s ws, .sfErr true)
   | .pinned s ws, .failRun => match m with | .duck => (com, .aborted, .rawRun) | .ideal => (com, .pinned s ws, .rawRun)
   | .pinned s ws, .const => (com, .pinned s ws, .one)
   -- aborted (reachable in duck mode only)
